@@ -135,20 +135,31 @@ func loadProgram(repo string, overlay map[string][]byte) (*Program, error) {
 		if i < 0 || !strings.HasSuffix(k, ")") {
 			continue
 		}
-		want := k[i+len(".closure(") : len(k)-1]
+		wants := strings.Split(k[i+len(".closure("):len(k)-1], "&")
 		var found []*ssa.Function
 		for _, fn := range p.allFuncs {
 			if fn.Parent() == nil || p.funcKeys[fn][:i] != k[:i] {
 				continue
 			}
-			calls := false
+			hit := map[string]bool{}
 			for _, b := range fn.Blocks {
 				for _, in := range b.Instrs {
 					if c, ok := in.(ssa.CallInstruction); ok {
-						if sc := c.Common().StaticCallee(); sc != nil && calleeKey(sc) == want {
-							calls = true
+						if sc := c.Common().StaticCallee(); sc != nil {
+							hit[calleeKey(sc)] = true
 						}
 					}
+				}
+			}
+			calls := true
+			for _, w := range wants {
+				w = strings.TrimSpace(w)
+				if strings.HasPrefix(w, "!") {
+					if hit[w[1:]] {
+						calls = false
+					}
+				} else if !hit[w] {
+					calls = false
 				}
 			}
 			if calls {
@@ -156,7 +167,7 @@ func loadProgram(repo string, overlay map[string][]byte) (*Program, error) {
 			}
 		}
 		if len(found) != 1 {
-			return nil, fmt.Errorf("contract %s: %d function literals call %s (need exactly one)", k, len(found), want)
+			return nil, fmt.Errorf("contract %s: %d function literals call %v (need exactly one)", k, len(found), wants)
 		}
 		delete(p.funcs, p.funcKeys[found[0]])
 		p.funcs[k] = found[0]
